@@ -324,6 +324,16 @@ def rule_memo_key(facts):
 
 # ====================================================================== AFFINE (binding powers)
 
+OVERFLOWS = []
+
+
+def _int_width(ty):
+    m = re.match(r"^[ui](\d+)$", ty.strip())
+    if m:
+        return int(m.group(1))
+    return 64 if ty.strip() in ("usize", "isize") else None
+
+
 def _affine_of_body(b):
     """Abstractly evaluate `fn(&Associativity) -> u32` per enum arm to (a, c) meaning a*x + c."""
     res = {}
@@ -357,6 +367,22 @@ def _affine_of_body(b):
                             elif op == "Mul" and (a_[0] == 0 or b_[0] == 0):
                                 k, o = (a_, b_) if a_[0] == 0 else (b_, a_)
                                 v = (k[1] * o[0], k[1] * o[1])
+                            elif op == "Shl" and b_[0] == 0 and 0 <= b_[1] < 32:
+                                v = (a_[0] << b_[1], a_[1] << b_[1])
+                            elif op == "BitOr" and (a_[0] == 0 or b_[0] == 0):
+                                k, o = (a_, b_) if a_[0] == 0 else (b_, a_)
+                                n_ = max(1, k[1].bit_length())
+                                if k[1] >= 0 and o[0] % (1 << n_) == 0 and o[1] % (1 << n_) == 0:
+                                    v = (o[0], o[1] + k[1])        # the low n bits of o are zero: `|` adds
+                        if v is not None:
+                            # the operation is carried out in the width of its operands: the whole u16 range must fit
+                            w = _int_width(mirq.local_ty(b, mirq.operand_place(rv["a"])["l"])) if mirq.operand_place(rv["a"]) else None
+                            w = w or _int_width(mirq.local_ty(b, s["place"]["l"]).strip("()").split(",")[0])
+                            hi = max(v[1], v[0] * 65535 + v[1])
+                            lo = min(v[1], v[0] * 65535 + v[1])
+                            if w is not None and (hi >= (1 << w) or lo < 0):
+                                OVERFLOWS.append("%s: %s of width u%d evaluates to %d*x+%d, which leaves the type for some u16 binding power x (max %d)"
+                                                 % (b["qname"], rv["op"], w, v[0], v[1], hi))
                         if rv["op"].endswith("WithOverflow") and v is not None:
                             v = ("pair", v)
                     elif rv["k"] == "copyderef" or rv["k"] == "ref":
@@ -411,8 +437,13 @@ def rule_affine(facts):
         return r
     adt = facts.adts.get("pratt::Associativity")
     variants = [v["name"] for v in adt["variants"]] if adt else []
+    del OVERFLOWS[:]
     L = _affine_of_body(lp[0])
     R = _affine_of_body(rp[0])
+    for note in sorted(set(OVERFLOWS)):
+        r.ob(False)
+        r.violations.append(V("AFFINE", "pratt::Associativity", "no overflow",
+                              "binding-power arithmetic overflows its integer type: %s" % note, *loc(lp[0])))
 
     def get(tab, name):
         idx = variants.index(name)
